@@ -78,7 +78,7 @@ pub fn split_trace_take() -> Vec<serde_json::Value> {
     SPLIT_TRACE.with(|t| t.borrow_mut().take().unwrap_or_default())
 }
 
-fn instances_of(ctx: &AnchorContext, pipeline: &[super::pq::ast::SqlTransform]) -> serde_json::Value {
+pub(in crate::sql) fn instances_of(ctx: &AnchorContext, pipeline: &[super::pq::ast::SqlTransform]) -> serde_json::Value {
     use super::pq::ast::SqlTransform as T;
     let mut out = serde_json::Map::new();
     for t in pipeline {
@@ -199,4 +199,9 @@ impl Drop for InstanceTrace {
     fn drop(&mut self) {
         trace_event(serde_json::json!({ "event": "instance_end" }));
     }
+}
+
+/// Is a trace being recorded on this thread?
+pub(in crate::sql) fn trace_recording() -> bool {
+    SPLIT_TRACE.with(|t| t.borrow().is_some())
 }
